@@ -70,7 +70,7 @@ def build(spec):
     if mode == "chrom":
         parent = chrom_parent(g)
     elif mode == "chunk":
-        parent = chunk_parent(g, spec["chunk"][0], spec["chunk"][1])
+        parent = chunk_parent(g, spec["chunk"][0], spec["chunk"][1], strand=spec.get("chunk_strand", "+"), idiom=spec.get("chunk_idiom", "api"))
     elif mode == "id_only":
         parent = Parent(id="chr1", sequence_type="chromosome")
     else:
@@ -318,6 +318,8 @@ def coll_base(draw, tier):
                     b = draw(st.integers(a + 2, hi))
                     sp["chunk"] = [a if draw(st.booleans()) else sp["chunk"][0], b if draw(st.booleans()) else sp["chunk"][1]]
                     sp["cutting_chunk"] = True
+                if not o.get("variant_collections"):
+                    sp.update(draw(S.chunk_flavour()))
             if draw(st.integers(0, 2)) == 0 and not sp.get("cutting_chunk"):
                 # the collection's own bounds given explicitly: inside the sequence / chunk window, containing every member
                 w_lo, w_hi = sp.get("chunk") or (0, n)
